@@ -275,7 +275,10 @@ def ranged_read_rule(ctx, rep, R):
     off = [k for k, (hv, lv) in carried.items() if lv == Lin(0)]
     idx = [k for k, (hv, lv) in carried.items() if lv == hv + Lin(1)]
     rem = [k for k, (hv, lv) in carried.items() if mins and lv == hv - mins[0]]
-    ok_sum = len(off) == 1 and len(idx) == 1 and len(rem) == 1
+    # the blob index advances by one per round: an explicit counter, or the loop is driven by Iterator::next (a `for` over the
+    # content from the start index): one next() call in the loop that dominates the append
+    iter_driven = [bb for bb, t in RA.calls() if bb in blocks and "callee" in t and re.search(r"Iterator(>)?::next$", callee(t) + " " + callee_decl(t)) and C.dominates(RA, bb, abb)]
+    ok_sum = len(off) == 1 and len(rem) == 1 and (len(idx) == 1 or (not idx and len(iter_driven) == 1))
     rep.check(R, "read_at/iteration-summary", ok_sum, where=where(RA, abb),
               what="per round: offset := 0, blob index += 1, remaining length -= bytes appended" if ok_sum else
                    f"the loop-carried values do not follow (offset := 0, index += 1, remaining -= appended): {[(k, str(v[0]), str(v[1])) for k, v in carried.items()]}")
